@@ -55,6 +55,9 @@ def cases(tier, seed):
                     combos = list(itertools.product(b["schemes"], b["periods"])) if tier == "thorough" else [(b["schemes"][k % 3], 1 + (k // 3) % 2)]
                     for sch, P in combos:
                         out.append(dict(nsteps=n, layout=lay, comp=comp, table=ti, scheme=sch, period=P, storage=("i2" if k % 4 == 0 else "f4" if k % 4 == 2 else "f8")))
+                    if comp == "one" and ti == 0:
+                        # vertical advection switched on: depth is part of the position, w is part of the velocity field
+                        out.append(dict(nsteps=n, layout=lay, comp=comp, table=ti, scheme=b["schemes"][k % 3], period=1, vertical=True))
                     if comp == "split" and ti in (0, 3):
                         # the same differential with frames, release times and the output period OFF the step grid
                         out.append(dict(nsteps=n, layout=lay, comp=comp, table=ti, scheme=b["schemes"][k % 3], period=1, offgrid=True))
@@ -71,6 +74,7 @@ def field(slot, sign):
     z = W.zeros()
     z["u"] += (c * (0.25 + 0.03125 * ju))[None]
     z["v"] += (c * (-0.125 + 0.03125 * iv))[None]
+    z["w"] = np.full((W.N, W.jmax, W.imax), c * 2.0 ** -9)  # metres per second, positive downwards (ladim's depth convention)
     return z
 
 
@@ -100,7 +104,8 @@ def run_dir(case, rev):
         lay_ = sorted(case["layout"])
         gap = {s_: s_ - lay_[i_ - 1] for i_, s_ in enumerate(lay_) if i_ > 0}  # a frame moved back must not share a step with its predecessor
         foff = lambda s_: 0 if (not off or s_ == first) else (-0.4 if (s_ != last and gap[s_] >= 2) else (off if gap[s_] >= 2 or s_ == last else 0))  # noqa: E731
-        W.write_file(d / f"f_{fi:02d}.nc", [dict(t=S0 + sgn * (s * DT + foff(s)), **field(s, 1 if rev else -1)) for s in g],
+        keep = (lambda z: z) if case.get("vertical") else (lambda z: {k_: v_ for k_, v_ in z.items() if k_ != "w"})  # noqa: E731
+        W.write_file(d / f"f_{fi:02d}.nc", [dict(t=S0 + sgn * (s * DT + foff(s)), **keep(field(s, 1 if rev else -1))) for s in g],
                      storage=case.get("storage", "f8"), scale=dict(u=(2.0 ** -12, 0.0), v=(2.0 ** -12, 0.0)))
     tab = TABLES[case["table"]]
     rows = []
@@ -112,9 +117,10 @@ def run_dir(case, rev):
     rel_extra = {}
     if tab["kind"] == "continuous":
         rel_extra = dict(continuous=True, release_frequency=tab["freq"] * DT)
-    conf = drive.roms_conf(d, d / "f_*.nc", S0, S0 + sgn * n * DT, DT, rows, outvars=("pid", "X", "Y", "tag"), period=P * DT + (DT // 2 if case.get("offgrid") else 0),
-                           tracker=dict(advection=case["scheme"]), reversed_=rev, release_extra=rel_extra,
-                           state=dict(instance_variables=dict(tag="int")))
+    vert = bool(case.get("vertical"))
+    conf = drive.roms_conf(d, d / "f_*.nc", S0, S0 + sgn * n * DT, DT, rows, outvars=("pid", "X", "Y", "Z", "tag"), period=P * DT + (DT // 2 if case.get("offgrid") else 0),
+                           tracker=dict(advection=case["scheme"], **(dict(vertical_advection=True) if vert else {})), reversed_=rev, release_extra=rel_extra,
+                           state=dict(instance_variables=dict(tag="int", **(dict(w="float") if vert else {}))), extra_forcing=["w"] if vert else None)
     conf["output"]["instance_variables"]["tag"] = world.ovar("i4")
     clock = []
     drive.run_model(conf, d, after_step=lambda m, k: clock.append((m.timer.step, world.tosec(m.timer.time))))
@@ -179,6 +185,9 @@ def run_case(case):
             bad("mirror:particles", f"record {k}: reversed pids/tags {pa}/{a['vars']['tag'].tolist()} vs forward {pb}/{b['vars']['tag'].tolist()}")
             continue
         dxy = max([0.0] + [abs(x - y) for x, y in zip(a["vars"]["X"].tolist() + a["vars"]["Y"].tolist(), b["vars"]["X"].tolist() + b["vars"]["Y"].tolist())])
+        dz = max([0.0] + [abs(x - y) for x, y in zip(a["vars"]["Z"].tolist(), b["vars"]["Z"].tolist())])
+        if dz > 1e-9:
+            bad("mirror:depth", f"record {k}: depths differ by {dz}: reversed Z={a['vars']['Z'].tolist()} forward Z={b['vars']['Z'].tolist()}" + (" (vertical advection on)" if case.get("vertical") else ""))
         if dxy > 1e-12:
             bad("mirror:positions", f"record {k}: positions differ by {dxy}: reversed X={a['vars']['X'].tolist()} forward X={b['vars']['X'].tolist()}")
         # each release happens at its stated time: new pids at record k are exactly those scheduled in steps (k-1)P+1 .. kP
